@@ -81,7 +81,7 @@ def realval(v) -> z3.ArithRef:
 
 
 class Sym:
-    __slots__ = ("t",)
+    __slots__ = ("t", "nn")
 
 
     def __repr__(self):
@@ -98,6 +98,7 @@ class SymBool(Sym):
 
     def __init__(self, t):
         self.t = t
+        self.nn = False
 
     def __bool__(self):
         return ctx().branch(self.t)
@@ -193,22 +194,38 @@ def _binop(a, b, fn, force_real=False):
     return wrap(fn(ta, tb))
 
 
+def _nn(o) -> bool:
+    if isinstance(o, SymNum):
+        return o.nn
+    try:
+        return o >= 0
+    except Exception:  # noqa: BLE001
+        return False
+
+
+def _mark(r, nn):
+    if nn and isinstance(r, SymNum):
+        r.nn = True
+    return r
+
+
 class SymNum(Sym):
     __slots__ = ()
 
-    def __init__(self, t):
+    def __init__(self, t, nn=False):
         self.t = t
+        self.nn = nn  # known non-negative by construction (sums of squares, roots, abs)
 
     # arithmetic -----------------------------------------------------------
     def __add__(self, o):
         if not _num_ok(o):
             return NotImplemented
-        return _binop(self, o, lambda x, y: x + y)
+        return _mark(_binop(self, o, lambda x, y: x + y), self.nn and _nn(o))
 
     def __radd__(self, o):
         if not _num_ok(o):
             return NotImplemented
-        return _binop(o, self, lambda x, y: x + y)
+        return _mark(_binop(o, self, lambda x, y: x + y), self.nn and _nn(o))
 
     def __sub__(self, o):
         if not _num_ok(o):
@@ -226,7 +243,8 @@ class SymNum(Sym):
         if isinstance(o, (int, float)) and not isinstance(o, bool):
             if o == 1:
                 return self
-        return _binop(self, o, lambda x, y: x * y)
+        same = isinstance(o, SymNum) and (o is self or o.t.eq(self.t))
+        return _mark(_binop(self, o, lambda x, y: x * y), same or (self.nn and _nn(o)))
 
     def __rmul__(self, o):
         if not _num_ok(o):
@@ -234,7 +252,7 @@ class SymNum(Sym):
         if isinstance(o, (int, float)) and not isinstance(o, bool):
             if o == 1:
                 return self
-        return _binop(o, self, lambda x, y: x * y)
+        return _mark(_binop(o, self, lambda x, y: x * y), self.nn and _nn(o))
 
     def __truediv__(self, o):
         if not _num_ok(o):
@@ -253,7 +271,9 @@ class SymNum(Sym):
         return self
 
     def __abs__(self):
-        return wrap(z3.If(self.t >= 0, self.t, -self.t))
+        if self.nn:
+            return self
+        return _mark(wrap(z3.If(self.t >= 0, self.t, -self.t)), True)
 
     def __pow__(self, o):
         if isinstance(o, (float, _np.floating)) and float(o) == int(o):
@@ -266,7 +286,7 @@ class SymNum(Sym):
                 r = self.t
                 for _ in range(o - 1):
                     r = r * self.t
-                return wrap(r)
+                return _mark(wrap(r), o % 2 == 0 or self.nn)
             return _div(1, self ** (-o))
         if isinstance(o, (float, _np.floating)) and float(o) == 0.5:
             return self.sqrt()
@@ -633,22 +653,22 @@ class SymCtx:
                 raise OutsideClaim("sqrt of a negative constant")
             n, d = math.isqrt(fr.numerator), math.isqrt(fr.denominator)
             if n * n == fr.numerator and d * d == fr.denominator:
-                return SymReal(z3.Q(n, d))
+                return SymReal(z3.Q(n, d), True)
         for arg, var in self._sqrts:
             if arg.eq(e):
-                return SymReal(var)
+                return SymReal(var, True)
         # hash-consing modulo proved equality of the argument (DESIGN 3.2)
         for arg, var in self._sqrts:
             if self._check(arg != e, timeout_ms=1000) == z3.unsat:
                 self._sqrts.append((e, var))
-                return SymReal(var)
-        if self.branch(e < 0):
+                return SymReal(var, True)
+        if not x.nn and self.branch(e < 0):
             raise OutsideClaim("sqrt of a negative number")
         var = z3.Real(self.fresh("sqrt"))
         self.add(z3.And(var >= 0, var * var == e))
         self._sqrts.append((e, var))
         self.nonlinear = True
-        return SymReal(var)
+        return SymReal(var, True)
 
     def trig(self, x: SymReal):
         e = z3.simplify(x.t)
